@@ -266,6 +266,21 @@ def run_case(case):
                                     continue
                             if not test.equals(test0):
                                 bad("input frame modified", cond, desc)
+                            if case.get("ints") and err is None and out is not None and not single:
+                                # the same rows with the categorical columns stored as float64 (what pandas makes of integers once a
+                                # value is missing): 2.0 is the category 2
+                                try:
+                                    tf = test.copy()
+                                    tf["A"] = pandas.to_numeric(tf["A"]).astype("float64")
+                                    tf["B"] = pandas.to_numeric(tf["B"]).astype("float64")
+                                    outf = tr.transform(tf)
+                                    ind_cols = [c_ for c_ in out.columns if c_ != "num"]
+                                    same_f = list(outf.columns) == list(out.columns) and all(
+                                        ((outf[c_] == 1.0).tolist() == (out[c_] == 1.0).tolist()) for c_ in ind_cols)
+                                    if not same_f:
+                                        bad("indicator of the row's value not set", cond + ",integer categories stored as float64", desc)
+                                except Exception as e_:
+                                    bad("transform raises %s" % type(e_).__name__, cond + ",integer categories stored as float64", "%s %s" % (str(e_)[:150], desc))
                             if unseen and not skip:
                                 if err is None:
                                     bad("unseen category does not raise", cond, desc)
